@@ -199,7 +199,7 @@ def run_job(spec):
                     first[0] = False
             return out
 
-        known = [k for k in spec.get("known", []) if k.get("harness") in (None, spec["harness"])]
+        known_all = [k for k in spec.get("known", []) if k.get("harness") in (None, spec["harness"])]
         for r in explore(body, max_paths=H.max_paths):
             res["paths"] += 1
             if r.abort is not None:
@@ -242,6 +242,7 @@ def run_job(spec):
                 continue
             posts = post if isinstance(post, list) else [("post", post)]
             for pname, p in posts:
+                known = [k for k in known_all if k.get("obligation") in (None, pname)]
                 res["obligations"] += 1
                 pt = z3.BoolVal(p) if isinstance(p, bool) else (p.t if hasattr(p, "t") else p)
                 excl = []
